@@ -123,6 +123,9 @@ impl VM {
 			.downcast_ref::<VMImportResolver>()
 			.expect("valid resolver ty");
 		let vmi = &mut *vmi.inner.borrow_mut();
+		// Downcast the resolver itself, not the `Rc` that holds it
+		let vmi: &mut dyn ImportResolver =
+			Rc::get_mut(vmi).expect("import resolver is not shared outside of the VM");
 		(vmi as &mut dyn Any)
 			.downcast_mut::<FileImportResolver>()
 			.expect("jpaths are not compatible with callback imports!")
